@@ -111,6 +111,29 @@ fn damage(bytes: &[u8], class: &str, rng: &mut Rng) -> Vec<u8> {
     b
 }
 
+/// Put the pre-state at an output location before the producing command runs.
+fn plant(path: &Path, pre: &str, longer_than: usize) {
+    if let Some(d) = path.parent() {
+        let _ = std::fs::create_dir_all(d);
+    }
+    match pre {
+        "shorter" => {
+            let _ = std::fs::write(path, b"x");
+        }
+        "longer" | "readonly" => {
+            let _ = std::fs::write(path, vec![0xEEu8; longer_than]);
+            if pre == "readonly" {
+                use std::os::unix::fs::PermissionsExt;
+                let _ = std::fs::set_permissions(path, std::fs::Permissions::from_mode(0o444));
+            }
+        }
+        "dir" => {
+            let _ = std::fs::create_dir_all(path);
+        }
+        _ => {}
+    }
+}
+
 fn lib3(s: &str) -> &'static str {
     if s == "ok" {
         "ok"
@@ -157,6 +180,12 @@ struct Rt {
     back_exit: i64,   // exit status of the conversion back (-9 = not run)
     tok_in: String,
     tok_back: String,
+    // pre-state of the output location and the comparison with the same command run into a fresh location
+    pre: String,       // "empty" | "shorter" | "longer" | "dir" | "readonly"
+    out_tok: String,   // token / length of the produced file ("" / 0 = not produced or not compared)
+    fresh_tok: String,
+    out_len: u64,
+    fresh_len: u64,
 }
 
 #[allow(clippy::too_many_arguments)]
@@ -170,6 +199,7 @@ fn run_event_rt(
     json!({"ev":"Run","case":case,"fam":fam,"cmd":cmd,"kind":kind,"input":input,"lib":lib,"libval":libval,"missing":missing,"skip":skip,
         "opt":opt,"exit":r.exit,"says_fail":says_fail(cmd, r),"want":pair(want),"got":pair(got),"outs":outs,"need_outs":need_outs,
         "view":view,"libview":libview,"err":tail,"stdout_tok":tok(r.stdout.as_bytes()),
+        "pre":if rt.pre.is_empty() { "empty" } else { rt.pre.as_str() },"out_tok":rt.out_tok,"fresh_tok":rt.fresh_tok,"out_len":rt.out_len,"fresh_len":rt.fresh_len,
         "rt_dir":rt.dir,"rt_back_exit":if rt.dir.is_empty() { -9 } else { rt.back_exit },"rt_in":rt.tok_in,"rt_back":rt.tok_back})
 }
 
@@ -184,8 +214,11 @@ fn fmt_case(cli: &Path, dir: &Path, c: &Value, seed: u64) -> Vec<Value> {
     let mut rng = Rng::derive(seed, &format!("c20:{kind}:{variant}:{input}"));
     let tmp = dir.join("tmp");
     std::fs::create_dir_all(&tmp).unwrap();
-    let reset = json!({"ev":"Reset","case":id,"mode":"fmt","fam":fam,"cmd":cmd,"kind":kind,"input":input,"variant":variant,"opt":opt});
+    let reset = json!({"ev":"Reset","case":id,"mode":"fmt","fam":fam,"cmd":cmd,"kind":kind,"input":input,"variant":variant,"opt":opt,
+        "pre":c.get("pre").and_then(|x| x.as_str()).unwrap_or("empty")});
+    let pre = c.get("pre").and_then(|x| x.as_str()).unwrap_or("empty").to_string();
     let base = match input {
+        "flagviol" => valid::make_flag_violating(kind, variant, &mut rng).ok_or_else(|| s("no flag-violating file for this kind")),
         // dbc: the file is fine, the schema it is validated against has one field too many (schema validation must fail)
         "flagged" if kind == "dbc" => valid::make_valid(kind, variant, &mut rng),
         "flagged" => valid::make_invalid_but_parseable(kind, &mut rng).ok_or_else(|| s("no flagged file for this kind")),
@@ -195,7 +228,14 @@ fn fmt_case(cli: &Path, dir: &Path, c: &Value, seed: u64) -> Vec<Value> {
         Ok(b) => b,
         Err(e) => tool_error(&format!("cannot make a valid {kind} file (variant {variant}): {e}")),
     };
-    let bytes = if input == "valid" || input == "flagged" || input == "nonexistent" { base } else { damage(&base, input, &mut rng) };
+    let bytes = if matches!(input, "valid" | "flagged" | "flagviol" | "nonexistent") { base } else { damage(&base, input, &mut rng) };
+    // the rule an optional validate flag switches on (asked of the library, per flag)
+    let flag = match (fam, cmd, opt) {
+        ("blp", "validate", 1) => "strict",
+        ("wdl", "validate", 1) => "wotlk",
+        _ => "",
+    };
+    let mut libview: Vec<String> = Vec::new();
     let ext = valid::extension(kind);
     let file = dir.join(format!("in.{ext}"));
     let (lib, libval) = if input == "nonexistent" {
@@ -203,9 +243,12 @@ fn fmt_case(cli: &Path, dir: &Path, c: &Value, seed: u64) -> Vec<Value> {
     } else {
         std::fs::write(&file, &bytes).unwrap();
         let refkind = if (fam, cmd, kind) == ("wmo", "convert", "wmo_root") { "wmo_conv" } else { kind };
-        let (l, st, n) = lib_verdicts(refkind, &file, &tmp);
+        let (l, st, n, fv, lview) = lib_verdicts_flag(refkind, &file, &tmp, flag);
+        libview = lview;
         let lv = if l != "ok" {
             s("n/a")
+        } else if fv == "fail" {
+            s("fail")
         } else {
             match kind {
                 "m2" | "anim" | "wdl" => s(if st == "ok" { "ok" } else if st == "err" { "fail" } else { "n/a" }),
@@ -337,20 +380,31 @@ fn fmt_case(cli: &Path, dir: &Path, c: &Value, seed: u64) -> Vec<Value> {
         }
         ("wdt", "tiles") => {
             a.push(f);
-            if opt == 1 {
-                a.extend([s("--format"), s("csv")]);
+            if opt >= 1 {
+                a.extend([s("--format"), s(if opt == 1 { "csv" } else { "json" })]);
             }
         }
         ("wdt", "convert") => {
             a.extend([f, o.clone(), s("--from-version"), s("WotLK"), s("--to-version"), s(if opt == 1 { "Classic" } else { "Cataclysm" })]);
             outs_paths.push((out.clone(), s("wdt")));
         }
-        ("wdl", "validate") => a.push(f),
+        ("wdl", "validate") => {
+            a.push(f);
+            if opt == 1 {
+                a.extend([s("--version"), s("WotLK")]);
+            }
+        }
         ("wdl", "convert") => {
             a.extend([f, o.clone(), s("--to"), s(if opt == 1 { "WotLK" } else { "Legion" })]);
             outs_paths.push((out.clone(), s("wdl")));
         }
         _ => tool_error(&format!("no argv rule for {fam} {cmd}")),
+    }
+    // pre-state of the output location (producers only)
+    if pre != "empty" {
+        if let Some((path, _)) = outs_paths.first() {
+            plant(path, &pre, 2 << 20);
+        }
     }
     let r = run_cli(cli, dir, &a);
     let mut outs = Vec::new();
@@ -365,10 +419,63 @@ fn fmt_case(cli: &Path, dir: &Path, c: &Value, seed: u64) -> Vec<Value> {
         }
     }
     let need = !outs_paths.is_empty();
+    // what the listing sub-commands printed, to be compared with the library's view
+    let mut view: Vec<String> = Vec::new();
+    match (fam, cmd) {
+        ("wdt", "tiles") if r.exit == 0 => {
+            view = match opt {
+                1 => r.stdout.lines().filter_map(|l| { let f: Vec<&str> = l.trim().split(',').collect(); if f.len() == 3 && f[0].parse::<u32>().is_ok() { Some(format!("{},{}", f[0], f[1])) } else { None } }).collect(),
+                2 => serde_json::from_str::<Value>(&r.stdout).ok().and_then(|v| v.as_array().cloned()).unwrap_or_default().iter()
+                        .map(|t| format!("{},{}", t["x"], t["y"])).collect(),
+                _ => r.stdout.lines().filter_map(|l| { let l = l.trim(); l.strip_prefix('[').and_then(|x| x.split(']').next()).map(|xy| xy.split(',').map(|q| q.trim().to_string()).collect::<Vec<_>>().join(",")) }).collect(),
+            };
+            view.sort();
+        }
+        ("dbc", "export") if r.exit == 0 => {
+            let text = outs_paths.first().and_then(|(pth, _)| std::fs::read_to_string(pth).ok()).unwrap_or_default();
+            let rows = if opt == 1 {
+                text.lines().filter(|l| !l.trim().is_empty()).count().saturating_sub(1)
+            } else {
+                match serde_json::from_str::<Value>(&text) {
+                    Ok(Value::Array(v)) => v.len(),
+                    Ok(Value::Object(m)) => m.get("records").and_then(|x| x.as_array()).map(|x| x.len()).unwrap_or(usize::MAX),
+                    _ => usize::MAX,
+                }
+            };
+            view = vec![format!("rows:{rows}")];
+        }
+        _ => libview.clear(),
+    }
+    if r.exit != 0 {
+        libview.clear();
+    }
+    // the same command into a fresh location: exit 0 must mean the same file whatever was there before
+    let mut rt = Rt { pre: pre.clone(), ..Rt::default() };
+    if pre != "empty" && need && r.exit == 0 {
+        let (outp, ok) = (&outs_paths[0].0, &outs_paths[0].1);
+        let fresh = dir.join(format!("fresh-{}", outp.file_name().unwrap().to_string_lossy()));
+        let af: Vec<String> = a.iter().map(|x| if *x == p(outp) { p(&fresh) } else { x.clone() }).collect();
+        let r2 = run_cli(cli, dir, &af);
+        if r2.exit == 0 {
+            // parsed-object token where the library has a Debug-able object; raw bytes for images; text exports (JSON object
+            // key order varies between processes) are compared as a multiset of bytes
+            let tk = |f: &Path| match ok.as_str() {
+                "png" | "blp" => std::fs::read(f).map(|b| tok(&b)).unwrap_or_default(),
+                "text" => std::fs::read(f).map(|mut b| { b.sort_unstable(); tok(&b) }).unwrap_or_default(),
+                k => lib_token(k, f),
+            };
+            rt.out_tok = tk(outp);
+            rt.fresh_tok = tk(&fresh);
+            rt.out_len = std::fs::metadata(outp).map(|m| m.len()).unwrap_or(0);
+            rt.fresh_len = std::fs::metadata(&fresh).map(|m| m.len()).unwrap_or(0);
+            if rt.fresh_tok.is_empty() {
+                rt.fresh_tok = s("unparseable");
+            }
+        }
+    }
     // conversions of valid input: convert the result back to the source version and compare the parsed objects' tokens
-    let mut rt = Rt::default();
     let convert = matches!(cmd, "convert" | "skin-convert" | "anim-convert") && kind != "blp";
-    if convert && input == "valid" && r.exit == 0 && outs == [s("ok")] {
+    if convert && input == "valid" && pre == "empty" && r.exit == 0 && outs == [s("ok")] {
         let target = a.last().cloned().unwrap_or_default();
         let src = source_version(kind, variant);
         let back = dir.join(format!("back.{ext}"));
@@ -386,7 +493,7 @@ fn fmt_case(cli: &Path, dir: &Path, c: &Value, seed: u64) -> Vec<Value> {
             rt.tok_back = lib_token(kind, &back);
         }
     }
-    vec![reset, run_event_rt(&id, fam, cmd, kind, input, &lib, &libval, false, false, opt, &r, &[], &[], &outs, need, &[], &[], &rt)]
+    vec![reset, run_event_rt(&id, fam, cmd, kind, input, &lib, &libval, false, false, opt, &r, &[], &[], &outs, need, &view, &libview, &rt)]
 }
 
 // --------------------------------------------------------------------------------------------------
@@ -411,6 +518,10 @@ fn content(rng: &mut Rng, i: usize) -> Vec<u8> {
 
 /// The library's view of an archive: (names as listed, (name, token) of every readable listed file, unreadable count)
 fn lib_view(path: &Path) -> Result<(Vec<String>, Vec<(String, String)>, usize, usize), String> {
+    // Archive::open on a directory never returns (its header search retries the failing read forever): not asked
+    if !path.is_file() {
+        return Err(s(if path.exists() { "err:NotAFile" } else { "err:Missing" }));
+    }
     match guarded(|| -> Result<_, wow_mpq::Error> {
         let mut ar = Archive::open(path)?;
         let names: Vec<String> = ar.list()?.into_iter().map(|e| e.name).collect();
@@ -458,6 +569,17 @@ fn view_of_list(stdout: &str) -> Vec<String> {
     v.sort();
     v
 }
+/// first column of the `--long` table
+fn view_of_long_list(stdout: &str) -> Vec<String> {
+    let mut v: Vec<String> = stdout
+        .lines()
+        .filter(|l| l.starts_with('|'))
+        .filter_map(|l| l.split('|').nth(1).map(|c| c.trim().to_string()))
+        .filter(|c| !c.is_empty() && c != "File")
+        .collect();
+    v.sort();
+    v
+}
 fn view_of_info(stdout: &str) -> Vec<String> {
     stdout.lines().filter_map(|l| l.trim().strip_prefix("Number of files: ").map(|n| format!("count:{}", n.trim()))).collect()
 }
@@ -468,10 +590,13 @@ fn mpq1_case(cli: &Path, dir: &Path, c: &Value, seed: u64) -> Vec<Value> {
     let opt = gi(c, "opt");
     let variant = gi(c, "variant");
     let mut rng = Rng::derive(seed, &format!("c20:mpq1:{variant}:{input}:{cmd}"));
-    let reset = json!({"ev":"Reset","case":id,"mode":"mpq1","fam":"mpq","cmd":cmd,"kind":"mpq","input":input,"variant":variant,"opt":opt});
+    let reset = json!({"ev":"Reset","case":id,"mode":"mpq1","fam":"mpq","cmd":cmd,"kind":"mpq","input":input,"variant":variant,"opt":opt,
+        "pre":c.get("pre").and_then(|x| x.as_str()).unwrap_or("empty")});
     let arch = dir.join("a.mpq");
-    let names = ["readme.txt", "data\\table.bin", "data\\sub\\empty.dat", "Interface\\Icons\\x.blp", "zz.txt"];
-    let nfiles = 2 + (variant as usize % 4);
+    // name classes: lower, UPPER, MiXed, nested directories, with spaces, non-ASCII
+    let names = ["readme.txt", "UPPER\\DATA.BIN", "Interface\\Icons\\MiXed.blp", "data\\sub\\deep\\empty.dat", "my dir\\a file.txt", "donn\u{e9}es\\\u{e9}t\u{e9}.txt", "zz.txt"];
+    let nfiles = 6 + (variant as usize % 2);
+    let pre = c.get("pre").and_then(|x| x.as_str()).unwrap_or("empty").to_string();
     let mut b = ArchiveBuilder::new().version(if variant % 2 == 0 { FormatVersion::V1 } else { FormatVersion::V2 });
     for (i, n) in names.iter().take(nfiles).enumerate() {
         let data = if i == 0 { gen_content("text", (max_file() * 3 / 8 + rng.below(max_file() * 3 / 8)) as usize, &mut rng) } else { content(&mut rng, i) };
@@ -512,6 +637,14 @@ fn mpq1_case(cli: &Path, dir: &Path, c: &Value, seed: u64) -> Vec<Value> {
     let mut need = false;
     let (mut vw, mut lv) = (Vec::new(), Vec::new());
     let preserve = opt == 1;
+    // pre-state of the producers' output locations
+    if pre != "empty" && input == "valid" {
+        match cmd {
+            "extract" => plant(&outd.join(if preserve { "my dir/a file.txt" } else { "a file.txt" }), &pre, 9000 + max_file() as usize),
+            "rebuild" => plant(&dir.join("rebuilt.mpq"), &pre, 2 << 20),
+            _ => {}
+        }
+    }
     match cmd {
         "info" => {
             a.push(af);
@@ -525,7 +658,15 @@ fn mpq1_case(cli: &Path, dir: &Path, c: &Value, seed: u64) -> Vec<Value> {
                 a.push(s("--check-checksums"));
             }
         }
-        "list" => a.push(af),
+        "list" => {
+            a.push(af);
+            if opt & 1 == 1 {
+                a.push(s("--long"));
+            }
+            if opt & 2 == 2 {
+                a.extend([s("--filter"), s("*.txt")]);
+            }
+        }
         "tree" => {
             a.extend([af, s("--no-color")]);
             if opt == 1 {
@@ -573,6 +714,9 @@ fn mpq1_case(cli: &Path, dir: &Path, c: &Value, seed: u64) -> Vec<Value> {
                 std::fs::write(&src, content(&mut rng, 1)).unwrap();
             }
             let _ = std::fs::remove_file(&arch);
+            if pre != "empty" && input == "valid" {
+                plant(&arch, &pre, 2 << 20);
+            }
             a.extend([af, s("--add"), p(&src)]);
             if opt == 1 {
                 a.push(s("--with-listfile"));
@@ -583,9 +727,9 @@ fn mpq1_case(cli: &Path, dir: &Path, c: &Value, seed: u64) -> Vec<Value> {
     let r = run_cli(cli, dir, &a);
     match cmd {
         "list" => {
-            vw = view_of_list(&r.stdout);
+            vw = if opt & 1 == 1 { view_of_long_list(&r.stdout) } else { view_of_list(&r.stdout) };
             if let Ok((n, _, _, _)) = &view {
-                lv = n.clone();
+                lv = n.iter().filter(|x| opt & 2 == 0 || x.to_lowercase().ends_with(".txt")).cloned().collect();
                 lv.sort();
             }
         }
@@ -631,7 +775,8 @@ fn mpq1_case(cli: &Path, dir: &Path, c: &Value, seed: u64) -> Vec<Value> {
         _ => {}
     }
     let (lib, libval) = if cmd == "create" { (s(if input == "valid" { "ok" } else { "n/a" }), s("n/a")) } else { (lib, libval) };
-    vec![reset, run_event(&id, "mpq", cmd, "mpq", input, &lib, &libval, false, false, opt, &r, &want, &got, &outs, need, &vw, &lv)]
+    let rt = Rt { pre: pre.clone(), ..Rt::default() };
+    vec![reset, run_event_rt(&id, "mpq", cmd, "mpq", input, &lib, &libval, false, false, opt, &r, &want, &got, &outs, need, &vw, &lv, &rt)]
 }
 
 fn pipe_case(cli: &Path, dir: &Path, c: &Value, seed: u64) -> Vec<Value> {
@@ -639,9 +784,10 @@ fn pipe_case(cli: &Path, dir: &Path, c: &Value, seed: u64) -> Vec<Value> {
     let (files, version, compression, explicit) = (gs(c, "files"), gs(c, "version"), gs(c, "compression"), gs(c, "explicit"));
     let (listfile, preserve, skip, threads) = (gb(c, "listfile"), gb(c, "preserve"), gb(c, "skip"), gi(c, "threads"));
     let chain = c.get("chain").and_then(|x| x.as_bool()).unwrap_or(false);
+    let pre = c.get("pre").and_then(|x| x.as_str()).unwrap_or("empty").to_string();
     let mut rng = Rng::derive(seed, &format!("c20:pipe:{id}"));
     let mut evs = vec![json!({"ev":"Reset","case":id,"mode":"pipe","fam":"mpq","cmd":"pipeline","kind":"mpq","input":"valid","files":files,
-        "version":version,"compression":compression,"listfile":listfile,"threads":threads,"preserve":preserve,"explicit":explicit,"skip":skip,"chain":chain})];
+        "version":version,"compression":compression,"listfile":listfile,"threads":threads,"preserve":preserve,"explicit":explicit,"skip":skip,"chain":chain,"pre":pre})];
     let ind = dir.join("in");
     std::fs::create_dir_all(&ind).unwrap();
     let n = match files {
@@ -653,7 +799,7 @@ fn pipe_case(cli: &Path, dir: &Path, c: &Value, seed: u64) -> Vec<Value> {
     let arch = dir.join("made.mpq");
     let mut a: Vec<String> = vec![s("mpq"), s("create"), p(&arch)];
     for i in 0..n {
-        let name = format!("f{i:02}{}", [".txt", ".bin", ".dat", ".blp"][i % 4]);
+        let name = format!("{}{i:02}{}", ["f", "UPPER", "MiXed", "\u{e9}t\u{e9}", "with space"][i % 5], [".txt", ".BIN", ".dat", ".blp"][i % 4]);
         let data = content(&mut rng, if n == 1 { 3 } else { i });
         std::fs::write(ind.join(&name), &data).unwrap();
         inputs.push((name.clone(), tok(&data)));
@@ -679,6 +825,8 @@ fn pipe_case(cli: &Path, dir: &Path, c: &Value, seed: u64) -> Vec<Value> {
     let mut lv = names.clone();
     lv.sort();
     evs.push(run_event(&id, "mpq", "list", "mpq", "valid", "ok", libval, false, false, 0, &r, &[], &[], &none, false, &view_of_list(&r.stdout), &lv));
+    let r = run_cli(cli, dir, &[s("mpq"), s("list"), p(&arch), s("--long")]);
+    evs.push(run_event(&id, "mpq", "list", "mpq", "valid", "ok", libval, false, false, 1, &r, &[], &[], &none, false, &view_of_long_list(&r.stdout), &lv));
     let r = run_cli(cli, dir, &[s("mpq"), s("info"), p(&arch)]);
     evs.push(run_event(&id, "mpq", "info", "mpq", "valid", "ok", libval, false, false, 0, &r, &[], &[], &none, false, &view_of_info(&r.stdout), &[format!("count:{count}")]));
     // patch archive for chain runs: overrides the first input file, adds a new one (made with the CLI's own `create`)
@@ -747,6 +895,13 @@ fn pipe_case(cli: &Path, dir: &Path, c: &Value, seed: u64) -> Vec<Value> {
         }
         a.extend(requested.iter().cloned());
     }
+    // pre-state: something is already where the first requested (whole archive: first input) file will be written
+    if pre != "empty" {
+        let first = if explicit == "all" { inputs[0].0.clone() } else { requested.iter().find(|q| !q.contains("such")).cloned().unwrap_or_default() };
+        if !first.is_empty() {
+            plant(&outd.join(on_disk_name(&first, preserve).replace('\\', "/")), &pre, 9000 + max_file() as usize);
+        }
+    }
     let r = run_cli(cli, dir, &a);
     // whole archive: files appear under the listed names; explicit: under the spelling that was requested
     let want: Vec<(String, String)> = if explicit == "all" {
@@ -759,7 +914,8 @@ fn pipe_case(cli: &Path, dir: &Path, c: &Value, seed: u64) -> Vec<Value> {
     };
     let mut got = Vec::new();
     dir_files(&outd, Path::new(""), &mut got);
-    evs.push(run_event(&id, "mpq", "extract", "mpq", "valid", "ok", libval, missing, skip, threads, &r, &want, &got, &none, false, &none, &none));
+    let rt = Rt { pre: pre.clone(), ..Rt::default() };
+    evs.push(run_event_rt(&id, "mpq", "extract", "mpq", "valid", "ok", libval, missing, skip, threads, &r, &want, &got, &none, false, &none, &none, &rt));
     evs
 }
 
@@ -785,6 +941,28 @@ fn worker(kind: &str, file: &str, tmp: &str) -> ! {
     };
     let (st, n) = if l == "ok" { valid::lib_validate(kind, &bytes, tmp) } else { (s("n/a"), 0) };
     println!("VERDICT {} {} {}", lib3(&l), st.split(':').next().unwrap_or("n/a"), n);
+    if let Ok(flag) = std::env::var("C20_FLAG") {
+        if l == "ok" && !flag.is_empty() {
+            println!("FLAGVERDICT {}", valid::lib_validate_flag(kind, &flag, &bytes, tmp));
+        }
+    }
+    // the library's view for listing sub-commands
+    if l == "ok" && kind == "wdt" {
+        if let Ok(w) = wow_wdt::WdtReader::new(std::io::Cursor::new(&bytes), wow_wdt::version::WowVersion::WotLK).read() {
+            for y in 0..64 {
+                for x in 0..64 {
+                    if w.get_tile(x, y).map(|t| t.has_adt).unwrap_or(false) {
+                        println!("VIEW {x},{y}");
+                    }
+                }
+            }
+        }
+    }
+    if l == "ok" && kind == "dbc" {
+        if let Ok(pz) = wow_cdbc::DbcParser::parse(&mut std::io::Cursor::new(&bytes)) {
+            println!("VIEW rows:{}", pz.header().record_count);
+        }
+    }
     std::process::exit(0);
 }
 
@@ -837,9 +1015,24 @@ fn lib_token(kind: &str, file: &Path) -> String {
 
 /// (lib, validate status, count) for a file, via the worker child.
 fn lib_verdicts(kind: &str, file: &Path, tmp: &Path) -> (String, String, i64) {
+    let (a, b, c, _, _) = lib_verdicts_flag(kind, file, tmp, "");
+    (a, b, c)
+}
+
+/// as lib_verdicts, plus the verdict for a validate flag ("" = none) and the library's view lines
+fn lib_verdicts_flag(kind: &str, file: &Path, tmp: &Path, flag: &str) -> (String, String, i64, String, Vec<String>) {
+    let (a, b, c, t) = lib_verdicts_raw(kind, file, tmp, flag);
+    let fv = t.lines().find_map(|l| l.strip_prefix("FLAGVERDICT ").map(|x| x.trim().to_string())).unwrap_or_else(|| s("n/a"));
+    let mut view: Vec<String> = t.lines().filter_map(|l| l.strip_prefix("VIEW ").map(|x| x.trim().to_string())).collect();
+    view.sort();
+    (a, b, c, fv, view)
+}
+
+fn lib_verdicts_raw(kind: &str, file: &Path, tmp: &Path, flag: &str) -> (String, String, i64, String) {
     let exe = std::env::current_exe().unwrap_or_else(|e| tool_error(&format!("current_exe: {e}")));
     let out = Command::new(exe)
         .args(["worker", kind, &p(file), &p(tmp)])
+        .env("C20_FLAG", flag)
         .stdin(Stdio::null())
         .stderr(Stdio::null())
         .output()
@@ -849,11 +1042,11 @@ fn lib_verdicts(kind: &str, file: &Path, tmp: &Path) -> (String, String, i64) {
         if let Some(rest) = l.strip_prefix("VERDICT ") {
             let f: Vec<&str> = rest.split_whitespace().collect();
             if f.len() == 3 {
-                return (s(f[0]), s(f[1]), f[2].parse().unwrap_or(0));
+                return (s(f[0]), s(f[1]), f[2].parse().unwrap_or(0), text.to_string());
             }
         }
     }
-    (s("panic"), s("n/a"), 0) // abort / signal / stack overflow of the library
+    (s("panic"), s("n/a"), 0, String::new()) // abort / signal / stack overflow of the library
 }
 
 fn main() {
